@@ -24,6 +24,7 @@ RULE = ('random build programs (1-12 commands, 1-4 qubits, 26 operation classes 
 def gen_cases(rng, tier):
     n = 160 if tier == 'quick' else 3000
     cases = [gen_case(rng, maxlen=rng.choice([4, 8, 12])) for _ in range(n)]
+    cases += [coregen.gen_structured(rng) for _ in range(24 if tier == 'quick' else 400)]      # rarely met shapes (coregen.gen_structured)
     for c in cases:
         c['obs'] = ['plain', 'plain_dur_first', 'unrolled']
     return cases
